@@ -58,6 +58,12 @@ type C19Sc struct {
 	// CorePanic (batch-item chain): the operation handler panics on every execution. The executor turns the panic into
 	// a failed item, and that failed item is the result the innermost stage receives from its continuation
 	CorePanic bool `json:"core_panic,omitempty"`
+	// Behav (client driver): what the scripted server does with the k-th request it reads (cycled): it may close the
+	// connection instead of replying (closing after a reply is left to C11: whether the next call then fails on its
+	// write or re-dials depends on which of the two notices first, and a failing transport is a different chain result). The client transport, innermost in the chain, then
+	// re-dials and sends again on its own; no two consecutive entries are faulty, so every execution of the transport
+	// ends with a response and the stages outside it must not notice anything
+	Behav []ReqBehav `json:"behav,omitempty"`
 }
 
 func genStage(g *simrt.Tape) StageSc {
@@ -102,6 +108,17 @@ func genC19(g *simrt.Tape, tier string) any {
 	}
 	sc.Late = sc.Cut > 0 && sc.Driver != "client" && g.Draw(2) == 0
 	sc.CorePanic = sc.Driver == "server-item" && g.Draw(6) == 0
+	if sc.Driver == "client" && g.Draw(3) == 0 {
+		n := 2 + g.Draw(4)
+		sc.Behav = make([]ReqBehav, n)
+		for i := 0; i < n; i++ {
+			prevFaulty := i > 0 && sc.Behav[i-1] != (ReqBehav{})
+			if prevFaulty || i == n-1 && sc.Behav[0] != (ReqBehav{}) {
+				continue
+			}
+			sc.Behav[i].CloseBefore = g.Draw(2) == 0
+		}
+	}
 	return sc
 }
 
@@ -147,6 +164,12 @@ func c19Floor(tier string) []*C19Sc {
 	maxLen := 2
 	if tier == "thorough" {
 		maxLen = 3
+	}
+	// the client transport re-dialling and re-sending under one- and two-stage chains
+	for _, bh := range [][]ReqBehav{{{CloseBefore: true}, {}}, {{}, {CloseBefore: true}}, {{}, {}, {CloseBefore: true}}} {
+		for _, st := range [][]StageSc{nil, {{Calls: 1}}, {{Calls: 2}}, {{Calls: 1}, {Calls: 1, Replace: true}}, {{Calls: 2}, {Calls: 1, Wrap: true}}, {{Stock: "timeout"}, {Calls: 1}}} {
+			out = append(out, &C19Sc{Driver: "client", Stages: st, Requests: 1 + len(st)%2, Behav: bh})
+		}
 	}
 	for _, d := range []string{"client", "server-msg", "server-item"} {
 		var rec func(prefix []StageSc, l int)
@@ -642,7 +665,7 @@ func execC19(x *X, scAny any) {
 	var cl, sibling *kmipclient.Client
 	var cw *clientWorld
 	if sc.Driver == "client" {
-		cw = newClientWorld(x, &ClientSc{Prop: "C19", Enforce: true})
+		cw = newClientWorld(x, &ClientSc{Prop: "C19", Enforce: true, Behav: sc.Behav})
 		cw.respond = func(_ *clientWorld, req *kmip.RequestMessage, _ int) *kmip.ResponseMessage {
 			rq, mm := markerOfToken(reqTokenOf(req))
 			cr.rec(rq, fmt.Sprintf("core ctx=%s msg=%s", "*", mm))
